@@ -377,7 +377,7 @@ def run_passthrough_job(job, build):
 
 ALPHA_FULL = [DASH, EQ, ord("a"), ord("b"), ord("z"), 0xC3, 0xA9]
 ALPHA_SMALL = [DASH, EQ, ord("a"), ord("b")]
-SHORT_FLAGS = [ord("a"), ord("h"), ord("V")]
+SHORT_FLAGS = [ord("a"), ord("h"), ord("V"), 0xE9]  # 0xE9 = e-acute, bytes C3 A9 (both in ALPHA_FULL)
 SHORT_ARGS = [ord("b")]
 
 
@@ -421,9 +421,11 @@ def ref_items(ex, words):
         start = len(items)
         done = False
         for ci, ch in enumerate(chars):
-            one = len(ch) == 1
-            is_flag = one and any(beq(ex, ch[0], f) for f in SHORT_FLAGS)
-            is_arg = one and any(beq(ex, ch[0], a) for a in SHORT_ARGS)
+            def is_name(cp):
+                enc = tuple(chr(cp).encode("utf-8"))
+                return len(enc) == len(ch) and all(beq(ex, x, y) for x, y in zip(ch, enc))
+            is_flag = any(is_name(f) for f in SHORT_FLAGS)
+            is_arg = any(is_name(a) for a in SHORT_ARGS)
             rest = tuple(b for c2 in chars[ci + 1:] for b in c2)
             if is_flag and not is_arg:
                 items.append(("short", ch, False, None, bs if ci == 0 else ()))
@@ -574,11 +576,12 @@ def py_tokenize(argv):
 
 
 def pt_expected(items):
-    """what grammar `pt` (switch -a, optional OsString -b/--beta, OsString positionals) must answer
-    on the reference items; returns ('ok', a, b, xs) or 'fail'"""
+    """what grammar `pt` (switches -a and -e-acute, optional OsString -b/--beta, OsString positionals)
+    must answer on the reference items; returns ('ok', a, e, b, xs) or 'fail'"""
     if items == "amb":
         return "fail"
     a = 0
+    e = 0
     b = []
     xs = []
     i = 0
@@ -593,6 +596,9 @@ def pt_expected(items):
             nm = bytes(it[1])
             if (k == "short" and nm == b"a") or (k == "long" and nm == b"alpha"):
                 a += 1
+                claimed[i] = True
+            elif (k == "short" and nm == "\u00e9".encode("utf-8")) or (k == "long" and nm == b"eacute"):
+                e += 1
                 claimed[i] = True
             elif (k == "short" and nm == b"b") or (k == "long" and nm == b"beta"):
                 if i + 1 < n and items[i + 1][0] in ("word", "argword") and not claimed[i + 1]:
@@ -611,9 +617,9 @@ def pt_expected(items):
                 claimed[i] = True
             else:
                 return "fail"
-    if a > 1 or len(b) > 1:
+    if a > 1 or e > 1 or len(b) > 1:
         return "fail"
-    return ("ok", a == 1, b[0] if b else None, xs)
+    return ("ok", a == 1, e == 1, b[0] if b else None, xs)
 
 
 def rust_dbg(b):
@@ -653,8 +659,9 @@ def confirm_construct_cex(out, build):
         elif exp == "help":
             c["reproduced"] = cls != "stdout"
         else:
-            want = "(%s, %s, [%s])" % ("true" if exp[1] else "false", "None" if exp[2] is None else "Some(%s)" % rust_dbg(exp[2]),
-                                       ", ".join(rust_dbg(x) for x in exp[3]))
+            want = "(%s, %s, %s, [%s])" % ("true" if exp[1] else "false", "true" if exp[2] else "false",
+                                           "None" if exp[3] is None else "Some(%s)" % rust_dbg(exp[3]),
+                                           ", ".join(rust_dbg(x) for x in exp[4]))
             c["reproduced"] = not (cls == "ok" and pay == want)
             c["expected_native"] = want
 
@@ -787,7 +794,7 @@ def make_jobs(tier, seed, build):
     # construct: word-length vectors
     lens = []
     if tier == "quick":
-        one = [(l,) for l in range(0, 5)]
+        one = [(l,) for l in range(0, 6)]
         two = [(a, b) for a in range(0, 4) for b in range(0, 4) if a + b <= 5]
         three = [(a, b, c) for a in range(1, 3) for b in range(1, 3) for c in range(1, 3)]
     else:
